@@ -37,7 +37,7 @@ func runC07(r *oblig.Report) {
 	r.Rule("R5.3", "instance-table", "exactly one outcome per item on every path through every loop", 5)
 	r.Rule("R5.1", "instance-table", "never a partial model", 2)
 	r.Rule("C07.2", "instance-table", "merge errors are the documented conflicts under the documented conditions", 5)
-	r.Rule("R9.4", "instance-table", "merge errors name the file being processed", 6)
+	r.Rule("R9.4", "instance-table", "merge errors name the file being processed", 7)
 	r.Rule("C07.5", "instance-table", "attribution uses the declaring file; requested schema version", 5)
 	r.Rule("C07.8", "instance-table", "conflict membership lists are rebuilt per item", 2)
 	r.Rule("C07.7", "instance-table", "module lookup has the documented outcomes", 1)
@@ -45,6 +45,7 @@ func runC07(r *oblig.Report) {
 	e5path.NeverPartial(c.P, r, "R5.1")
 	e5path.RejectionSites(c.P, r, "C07.2", rejectionSpecs)
 	e9pos.MergeErrors(c.P, r, "R9.4")
+	e5path.ForwardedErrors(c.P, r, "R9.4")
 	e5path.Attribution(c.P, r, "C07.5")
 	e5path.FreshMembership(c.P, r, "C07.8")
 	e5path.ModuleLookupShape(c.P, r, "C07.7")
